@@ -1271,7 +1271,11 @@ class LinkGen:
         usings = {}
         for u in (self.cur_ctx or {}).get("usings", []):
             usings.update(u)
-        self.oinfo[occ] = dict(kind=kind, name=name, prefix=prefix, usings=usings, argtypes=list(self.last_argtypes))
+        cc = self.cur_ctx or {}
+        self.oinfo[occ] = dict(kind=kind, name=name, prefix=prefix, usings=usings, argtypes=list(self.last_argtypes),
+                               scope=cc.get("scope", ""),                                     # namespace / class of the enclosing function
+                               udirs=[p for sc in cc.get("udirs", []) for p in sc],          # using-directives in effect at the use
+                               fun_udirs=cc.get("fun_udirs", []))                            # all using-directives of the function body
         expr = prefix + name + suffix
         self.toks.append(("p", expr, occ, ind))
         self.t(ind + ("sink(&" if wrap else "") + prefix)
@@ -1300,6 +1304,8 @@ class LinkGen:
         self.cur_ctx = ctx
         self.last_argtypes = []
         ctx.setdefault("usings", [{}])
+        ctx.setdefault("udirs", [[]])
+        ctx.setdefault("fun_udirs", [])
         r = rng.random()
         vn = "v%d" % rng.randrange(4)
         fn = "f%d" % rng.randrange(3)
@@ -1350,9 +1356,11 @@ class LinkGen:
             self.t(ind + "{\n")
             ctx["local"].append(set())
             ctx["usings"].append({})
+            ctx["udirs"].append([])
             self.stmts(ind + "  ", ctx, depth + 1, rng.choice([1, 2, 3]))
             ctx["local"].pop()
             ctx["usings"].pop()
+            ctx["udirs"].pop()
             self.t(ind + "}\n")
         elif r < 0.94 and depth < 2:
             k = self.newk()
@@ -1363,13 +1371,17 @@ class LinkGen:
             self.t(") {\n")
             ctx["local"].append({vn})
             ctx["usings"].append({})
+            ctx["udirs"].append([])
             self.stmts(ind + "  ", ctx, depth + 1, rng.choice([1, 2, 3]))
             ctx["local"].pop()
             ctx["usings"].pop()
+            ctx["udirs"].pop()
             self.t(ind + "};\n")
         elif r < 0.97 and self.nspaces and not ctx.get("used_ns"):
             path, info = self.pick_ns()
             ctx["used_ns"] = True
+            ctx["udirs"][-1].append(path)
+            ctx["fun_udirs"].append(path)
             self.t("%susing namespace %s;\n" % (ind, path))
         elif self.nspaces:
             path, info = self.pick_ns()
@@ -1423,7 +1435,7 @@ class LinkGen:
             if rng.random() < 0.6:
                 self.argvars(ind + "  ")
                 self.objects(ind + "  ")
-                ctx = dict(bodyctx, local=[{pv} if pv else set()])
+                ctx = dict(bodyctx, local=[{pv} if pv else set()], scope=scope)
                 self.stmts(ind + "  ", ctx, 1, rng.choice([1, 2, 3]))
             self.t("%s  return R%d();\n%s}\n" % (ind, k, ind))
         funcs[name] = sigs
@@ -1585,15 +1597,27 @@ def classify_link(g, occ, use_line, linked_k, linked_line, expected_k):
     # uses bound to an inner declaration of x
     if oi["name"] in oi["usings"] and dl[0] == "ns-var" and dl[1] == oi["usings"][oi["name"]]:
         return "using-declaration-substitutes-other-name"
+    udirs = oi.get("udirs", [])
+    use_scope = oi.get("scope", "")
+    dormant = [p for p in oi.get("fun_udirs", []) if p not in udirs]
+    # K2: a non-member function declared after the call cannot be what the compiler selected
+    if dl[0] == "function" and de[0] in ("function", "method") and linked_line > use_line:
+        return "call-linked-to-later-declaration"
+    # K6: a `using namespace P;` in effect makes the compiler select P's declaration; cppcheck links to another scope's
+    if de[0] in ("function", "ns-var") and de[1] in udirs and dl[1] != de[1] and dl[1] not in udirs:
+        return "using-directive-ignored"
+    # K7: a `using namespace P;` that is not in effect at the use (it follows later in the function, or sits in a block that
+    # is already closed) nevertheless makes P's declarations candidates (P not otherwise visible from the use)
+    if (dl[0] in ("function", "ns-var") and dl[1] in dormant and de[1] != dl[1]
+            and not (dl[1] == use_scope or scope_prefix(dl[1], use_scope))):
+        return "using-directive-applied-outside-its-region"
     if dl[0] in ("function", "method") and de[0] in ("function", "method"):
-        # K2: a non-member function declared after the call cannot be what the compiler selected
-        if dl[0] == "function" and linked_line > use_line:
-            return "call-linked-to-later-declaration"
+        same_set = dl[1] == de[1] or dl[1] in udirs or de[1] in udirs      # one candidate set for overload resolution
         # K3: the compiler's function lives in a scope nested inside the scope of the linked one and hides it
-        if scope_prefix(dl[1], de[1]):
+        if not same_set and scope_prefix(dl[1], de[1]):
             return "call-linked-to-hidden-outer-function"
-        # K4: same overload set; the linked overload is dominated (never a better, somewhere a worse conversion rank)
-        if dl[1] == de[1] and len(dl[2]) == len(de[2]) == len(oi["argtypes"]):
+        # K4 / K5: same candidate set; conversion ranks per argument
+        if same_set and len(dl[2]) == len(de[2]) == len(oi["argtypes"]):
             rl = [conv_rank(a, p) for a, p in zip(oi["argtypes"], dl[2])]
             re_ = [conv_rank(a, p) for a, p in zip(oi["argtypes"], de[2])]
             if 9 in rl and 9 not in re_:
